@@ -1,3 +1,4 @@
+import IsobarV.Interp.Drv
 import IsobarV.Clock.Drv
 import IsobarV.Auto.Drv
 import IsobarV.Midi.Drv
@@ -17,4 +18,5 @@ def main (args : List String) : IO UInt32 := do
   | ["midi"] => IsobarV.Midi.Drv.main; return 0
   | ["auto"] => IsobarV.Auto.Drv.main; return 0
   | ["clock"] => IsobarV.Clock.Drv.main; return 0
+  | ["interp"] => IsobarV.Interp.Drv.main; return 0
   | _ => IO.eprintln s!"usage: driver <suite>; unknown: {args}"; return 2
